@@ -19,7 +19,7 @@ Kinds  == {"ae", "rv", "pv", "is", "tn", "pipe"}
 Faults == {"none", "cutreq", "cutresp", "slowhandler", "handlererr"}
 Op == [kind : Kinds, fault : Faults]
 \* a connection failure makes no sense for every combination: keep the meaningful ones
-Ok(o) == (o.kind = "pipe" => o.fault \in {"none", "cutreq", "cutresp"})
+Ok(o) == (o.kind = "pipe" => o.fault \in {"none", "cutreq", "cutresp", "handlererr"})
 Scenarios == UNION {{s \in [1..n -> Op] : \A i \in 1..n : Ok(s[i])} : n \in 1..MaxOps}
 
 VARIABLE cs
